@@ -72,5 +72,21 @@ PLAN = {
         level_text="window sizes 0..6 (thorough 8) x every triple of a box exceeding the window by 2 on every side with an injective stub source (pure layout), and the real Vertex4 on model states of S1,S2 x all tuples x N=0..2: operator() equals value() exactly and value() is chi - chi0",
         runs=[("san", "hx", "C15", 8, [])],
         rule="flat enumeration window x triple; BFS over generator histories for the real vertex"),
+    "C14": dict(
+        engine="modelx", technique="explicit-state BFS over model histories x beta x operator quadruples x bosonic Matsubara numbers x 4 subtraction modes x tau grid; bosonic divided-difference reference (static limit = confluent node)",
+        level_text="every model state x beta {1,10} x (a,b,c,d) (all for M<=3, representatives incl. S_z-changing operators for M=4) x n in -2..2 x {no subtraction, 3 ways of supplying <A>,<B>} x 5 tau points against int <A(tau)B> e^{iWtau} computed on the full Fock space",
+        runs=[("san", "hx", "C14", 16, [])], thorough_extra=[("cplx", "hx", "C14", 16, [])], deadline_quick=900,
+        rule="BFS over generator histories x betas x quadruples x frequencies"),
+    "C19": dict(
+        engine="modelx", technique="explicit-state BFS over model histories x beta x truncation tolerances; reference Lehmann sums restricted to exactly the world-stripes that keep a retained block",
+        level_text="every model state x beta {1,10,100} x eps {0,1e-12,1e-6,1e-2}: retention flag per block, truncated G / susceptibility / ensemble average / chi equal the reference with exactly the fully-discarded stripes removed, the 2 eps dim/|Im z| bound for G, and eps=0 changes nothing",
+        runs=[("san", "hx", "C19", 16, [])], deadline_quick=900,
+        rule="BFS over generator histories x betas x tolerances; counters report how many cases actually discarded blocks",
+        assumptions=["the block structure needed to say which stripes are removed is taken from the library's own eigen-data, which C03 validates against the dense diagonalisation"]),
+    "C08": dict(
+        engine="modelx", technique="explicit-state BFS over model histories; every pair of accepted symmetry analyses compared differentially on all observables",
+        level_text="every model state x every pair from {default, ignored, 7 custom lists}: spectrum, sorted weights, occupancies, energy, all G_ij, susceptibilities, ensemble averages and (M<=3) chi agree between the two partitions",
+        runs=[("san", "hx", "C08", 16, [])], deadline_quick=900,
+        rule="BFS over generator histories x pairs of accepted analyses (unsound partitions are C07's and skipped)"),
 }
 NOT_APPLICABLE = {}
